@@ -4,6 +4,8 @@ Obligations: Props/C17.lean + HKernel (purity: each rotor's result is a function
 Gap/search: rotor arrays of rank 0..3 (incl. size-1 axes) x modes with 0..2 leading axes x {d, D, sYlm, evaluate,
 rotate} x strategy x with/without out= x with/without workspace=: shapes, bitwise equality with per-rotor calls,
 identity of returned array vs out, inputs unmodified, no aliasing of inputs/workspace."""
+import math
+
 import numpy as np
 
 from .. import helpers
@@ -29,6 +31,19 @@ def check(run):
         arr = np.array([helpers.random_rotor(rng) for _ in range(n)]).reshape(shape + (4,))
         if n > 1 and rng.random() < 0.5:
             arr.reshape(-1, 4)[0] = (1.0, 0.0, 0.0, 0.0)     # a pole among them
+        if n > 1 and rng.random() < 0.6:
+            # consecutive rotors that share cos(beta) to the last bit but not beta (near a pole), or share beta exactly
+            flat = arr.reshape(-1, 4)
+            kind = rng.choice(["near-pole-run", "same-beta", "antipole-run"])
+            for i in range(flat.shape[0]):
+                if kind == "near-pole-run":
+                    flat[i] = (math.cos(0.2 * i), (1 + 2 * i) * 1e-9, -(1 + i) * 1e-9, math.sin(0.2 * i))
+                elif kind == "antipole-run":
+                    flat[i] = ((1 + i) * 2e-9, math.cos(0.3 * i), math.sin(0.3 * i), (1 + i) * 1e-9)
+                else:
+                    a, g = 0.4 * i, 1.1 - 0.3 * i
+                    flat[i] = (math.cos(0.35) * math.cos((a + g) / 2), -math.sin(0.35) * math.sin((a - g) / 2), math.sin(0.35) * math.cos((a - g) / 2), math.cos(0.35) * math.sin((a + g) / 2))
+                flat[i] /= np.linalg.norm(flat[i])
         return arr
 
     for shape in (RSHAPES if not quick else RSHAPES[:6]):
